@@ -170,10 +170,17 @@ func prefixesOf(start *yang.Entry) map[string]string {
 	return out
 }
 
+// beat tells the watchdog that a long case is alive (set by run): a big set is millions of lookups,
+// each of which returns; only a lookup that does not return is a hang.
+var beat func()
+
 func lookups(ms *yang.Modules, countOnly func(n int)) *fail {
 	nodes := collect(ms)
 	total := 0
 	for _, s := range nodes {
+		if beat != nil {
+			beat()
+		}
 		pf := prefixesOf(s.e)
 		for _, t := range nodes {
 			// absolute, with the prefixes of the start node's defining module
@@ -351,6 +358,7 @@ func run(c *core.Ctx) {
 		}
 		c.Exec()
 		c.StateN(1)
+		beat = c.Beat
 		f, clean := check(s.Files, func(k int) { c.Edge(int64(k)); c.Validates(int64(k)) })
 		if !clean && f == nil {
 			c.Exclude()
